@@ -9,8 +9,12 @@ import (
 	"math"
 )
 
-var vC18A = []float32{0, 1e-6, -1e-6, 1e-3, -1e-3, 0.5, -0.5, 1, -1, 3, -3, 1e3, -1e3, 1e6, -1e6}
-var vC18Sub = []float32{0, 1e-3, -1e-3, 1, -1, 1e3, -1e3}
+// vNegZero: IEEE negative zero (what -x, x*0 with a negative x, or Scale(v, -1) leave behind);
+// a vector of zeros is a zero vector whatever the sign bits say
+var vNegZero = float32(math.Copysign(0, -1))
+
+var vC18A = []float32{0, vNegZero, 1e-6, -1e-6, 1e-3, -1e-3, 0.5, -0.5, 1, -1, 3, -3, 1e3, -1e3, 1e6, -1e6}
+var vC18Sub = []float32{0, vNegZero, 1e-3, -1e-3, 1, -1, 1e3, -1e3}
 
 func vAllVecs(alpha []float32, d int) [][]float32 {
 	out := [][]float32{{}}
@@ -353,7 +357,7 @@ func vC18Basis(d int) [][]float32 {
 func init() {
 	vRegister(&vCheck{
 		ID: "C18", Level: "exploration", Engine: "domainmc",
-		Rule:        "Exhaustive lattice: ALL vectors in A^d (A = 15 values spanning 1e-6..1e6 with signs, d in {1,2}; 7-value sub-alphabet for d=3), all ordered pairs (non-negativity, exact symmetry and zero self-distance for l2/l2^2, l2^2 value, l2 = sqrt(l2^2), cosine range/symmetry/self/value vs float64 / invariance under 4 positive scalings, batch == scalar bit-exact, Preprocess leaves its argument bit-identical, in-place == copying preprocess and unit norm, zero vector rejected), all triples over d=1 (full) and d=2 (sub-alphabet) for the triangle inequality, Norm/Scale/Normalize/NormalizeInPlace against their definitions, plus, for EVERY d in 4..40 and d in {47,48,49,60,63,65,68,96,100,127,128,129,132,255,256,257,300}, every pair of signed unit spikes at every position / all-ones / ramp / alternating vectors (index arithmetic of unrolled loops), plus every pair of structured block-constant / alternating / half-half / nearly-parallel vectors in d in {64, 512}. Tolerance 8*d*2^-23 relative to operand magnitudes. Non-trivial = distinct non-zero pairs on which every cosine law was evaluated.",
+		Rule:        "Exhaustive lattice: ALL vectors in A^d (A = 16 values: 0, IEEE negative zero and 1e-6..1e6 with signs, d in {1,2}; 8-value sub-alphabet for d=3), all ordered pairs (non-negativity, exact symmetry and zero self-distance for l2/l2^2, l2^2 value, l2 = sqrt(l2^2), cosine range/symmetry/self/value vs float64 / invariance under 4 positive scalings, batch == scalar bit-exact, Preprocess leaves its argument bit-identical, in-place == copying preprocess and unit norm, zero vector rejected), all triples over d=1 (full) and d=2 (sub-alphabet) for the triangle inequality, Norm/Scale/Normalize/NormalizeInPlace against their definitions, plus, for EVERY d in 4..40 and d in {47,48,49,60,63,65,68,96,100,127,128,129,132,255,256,257,300}, every pair of signed unit spikes at every position / all-ones / ramp / alternating vectors (index arithmetic of unrolled loops), plus every pair of structured block-constant / alternating / half-half / nearly-parallel vectors in d in {64, 512}. Tolerance 8*d*2^-23 relative to operand magnitudes. Non-trivial = distinct non-zero pairs on which every cosine law was evaluated.",
 		Assumptions: []string{"tolerances scaled to float32 accumulation error: 8*d*2^-23 times the operand magnitudes"},
 		Shards: func(tier string) []vShard {
 			var sh []vShard
